@@ -7,8 +7,8 @@
    paragraphs and is a fixed point. *)
 From Coq Require Import String List NArith ZArith Bool.
 From J5V.lib Require Import Text Outcome.
-From J5V.model Require Import BclLexer BclParser BclFmt.
-From J5V.proofs Require Import BclPosProofs BclLexerProofs BclParserProofs BclFmtProofs BclFmtLitProofs BclReflowProofs BclLexLitProofs BclFmtSeqProofs BclFragWfProofs BclFmtLineProofs BclWalkBackProofs BclFmtFileProofs BclDescGapProofs BclFmtRoundProofs BclFmtIdemProofs BclDocProofs BclUtf8Proofs BclRuneClosedProofs BclFmtBytesProofs BclDocBytesProofs.
+From J5V.model Require Import BclLexer BclParser BclFmt BclCli.
+From J5V.proofs Require Import BclPosProofs BclLexerProofs BclParserProofs BclFmtProofs BclFmtLitProofs BclReflowProofs BclLexLitProofs BclFmtSeqProofs BclFragWfProofs BclFmtLineProofs BclWalkBackProofs BclFmtFileProofs BclDescGapProofs BclFmtRoundProofs BclFmtIdemProofs BclDocProofs BclUtf8Proofs BclRuneClosedProofs BclFmtBytesProofs BclDocBytesProofs BclCliProofs.
 (* after the proofs: doc_of / value_doc / tag_doc below are the declarative ones of model/BclDoc.v *)
 From J5V.model Require Import BclDoc.
 Import ListNotations.
@@ -249,6 +249,53 @@ Theorem C09_output_is_utf8 : forall input outb, fmt_bytes input = Ok outb -> utf
 Proof. exact fmt_bytes_output_utf8. Qed.
 Print Assumptions C09_output_is_utf8.
 
+(* ---- `j5 j5s fmt --write`: which files are written, with what bytes (model/BclCli.v) ----------------- *)
+(* A file tree is a list of (path, content) with distinct paths.  run_fmt models runJ5sFmt / runForJ5Files /
+   fileWriter.PutFile: --dir visits the files whose extension is .j5s in fs.WalkDir order and stops at the
+   first one the formatter rejects; --file formats the one file; only --write writes.
+   [format_tree t]: every .j5s entry replaced by Fmt's output, every other entry as it was *)
+Theorem C09_cli_without_write_changes_nothing : forall target t, fs_after (run_fmt target false t) = t.
+Proof. exact fmt_without_write_changes_nothing. Qed.
+Print Assumptions C09_cli_without_write_changes_nothing.
+
+Theorem C09_cli_dir_write : forall t, NoDup (map fst t) ->
+  (forall p d, In (p, d) t -> is_j5s p = true -> exists o, fmt_bytes d = Ok o) ->
+  run_fmt TDir true t = mkCli (format_tree t) [] None.
+Proof. exact fmt_dir_write_spec. Qed.
+Print Assumptions C09_cli_dir_write.
+
+(* the first rejected source in walk order ends the run: the sources before it are rewritten, it and the later
+   ones (and every other file) are untouched, the command reports it *)
+Theorem C09_cli_dir_write_stops_at_first_rejected : forall t pre p d post, NoDup (map fst t) ->
+  j5s_files t = pre ++ (p, d) :: post ->
+  Forall (fun e => exists o, fmt_bytes (snd e) = Ok o) pre -> ~ (exists o, fmt_bytes d = Ok o) ->
+  run_fmt TDir true t = mkCli (map (rewrite_by pre) t) [] (Some p).
+Proof. exact fmt_dir_write_stops. Qed.
+Print Assumptions C09_cli_dir_write_stops_at_first_rejected.
+
+Theorem C09_cli_file_write : forall t p d, NoDup (map fst t) -> In (p, d) t -> (exists o, fmt_bytes d = Ok o) ->
+  run_fmt (TFile p) true t = mkCli (map (fun e => if path_eqb (fst e) p then (fst e, fmt_out d) else e) t) [] None.
+Proof. exact fmt_file_write_spec. Qed.
+Print Assumptions C09_cli_file_write.
+
+(* running the command a second time succeeds and leaves every file as it is *)
+Theorem C09_cli_second_run_changes_nothing : forall t, NoDup (map fst t) ->
+  (forall p d, In (p, d) t -> is_j5s p = true -> exists o, fmt_bytes d = Ok o) ->
+  run_fmt TDir true (format_tree t) = mkCli (format_tree t) [] None.
+Proof. exact fmt_dir_write_twice. Qed.
+Print Assumptions C09_cli_second_run_changes_nothing.
+
+(* and what is then on disk: every source the parser accepted is replaced by bytes the parser accepts, with
+   the same document, that Fmt maps to themselves *)
+Theorem C09_cli_write_keeps_documents : forall t, NoDup (map fst t) ->
+  (forall p d, In (p, d) t -> is_j5s p = true -> exists o, fmt_bytes d = Ok o) ->
+  forall p d, In (p, d) t -> is_j5s p = true -> accepted_bytes d ->
+    exists d' fs fs', In (p, d') (fs_after (run_fmt TDir true t)) /\ accepted_bytes d' /\
+      collect_fragments (utf8_decode d) = Ok fs /\ collect_fragments (utf8_decode d') = Ok fs' /\
+      map doc_of fs' = map doc_of fs /\ fmt_bytes d' = Ok d'.
+Proof. exact fmt_dir_write_keeps_documents. Qed.
+Print Assumptions C09_cli_write_keeps_documents.
+
 (* non-vacuity: a string with every escapable rune, a regex with slashes, nested array, trailing
    comment, description: accepted, formatted, the output accepted with the same document, and a
    second formatting changes nothing *)
@@ -270,3 +317,15 @@ Example C09_example_bytes :
   accepted_bytes [97; 61; 34; 195; 169; 34; 10]%N /\
   fmt_bytes [97; 61; 34; 195; 34; 10]%N = Ok [97; 32; 61; 32; 34; 239; 191; 189; 34; 10]%N.
 Proof. split; [vm_compute; reflexivity|]. split; [eexists; vm_compute; reflexivity|vm_compute; reflexivity]. Qed.
+
+(* non-vacuity for the command: walk order is by path component (a/b.j5s before a-/q.j5s before a.j5s), the
+   rejected a.j5s stops the run, z.j5s is not reached, notes.txt is not a source *)
+Example C09_example_cli :
+  let raw := [120;32;32;61;32;49;10]%N in let fixed := [120;32;61;32;49;10]%N in let bad := [120;32;61;32;61;10]%N in
+  let p (s : list (list N)) := s in
+  let a := p [[97;46;106;53;115]]%N in let ab := p [[97];[98;46;106;53;115]]%N in let aq := p [[97;45];[113;46;106;53;115]]%N in
+  let z := p [[122;46;106;53;115]]%N in let n := p [[115;117;98];[110;46;116;120;116]]%N in
+  run_fmt TDir true [(aq, raw); (a, bad); (ab, raw); (n, raw); (z, raw)]
+  = mkCli [(aq, fixed); (a, bad); (ab, fixed); (n, raw); (z, raw)] [] (Some a) /\
+  map fst (j5s_files [(aq, raw); (a, bad); (ab, raw); (n, raw); (z, raw)]) = [ab; aq; a; z].
+Proof. cbv zeta. split; vm_compute; reflexivity. Qed.
